@@ -425,11 +425,22 @@ def _check_fuse(ctx, model):
     if len(pss3) == 1 and pss3[0].retval[0] == "lit" \
             and len(pss3[0].retval[2]) == 3:
         pa, pb, pf = [x.arg for x in fn3.args.args][:3]
-        dis = ("call", "disambiguate_identifiers", (_p(pa), _p(pb), _p(pf)), ())
-        fu = ("call", "fuse_statement_streams_with_unique_ids",
-              (_p(pa), ("index", dis, 0)), ())
-        ok = pss3[0].retval[2] == (("index", fu, 0), ("index", dis, 1),
-                                   ("index", fu, 1))
+        # (further options are handed to disambiguate_identifiers under their
+        # own names)
+        rv3 = pss3[0].retval[2]
+        dis = None
+        if rv3[1][0] == "index" and rv3[1][1][0] == "call" and \
+                rv3[1][1][1] == "disambiguate_identifiers":
+            cand = rv3[1][1]
+            params3 = {x.arg for x in fn3.args.args} | {
+                x.arg for x in fn3.args.kwonlyargs}
+            if cand[2] == (_p(pa), _p(pb), _p(pf)) and all(
+                    k in params3 and v == _p(k) for k, v in cand[3]):
+                dis = cand
+        if dis is not None:
+            fu = ("call", "fuse_statement_streams_with_unique_ids",
+                  (_p(pa), ("index", dis, 0)), ())
+            ok = rv3 == (("index", fu, 0), ("index", dis, 1), ("index", fu, 1))
     ctx.ob("P/disambiguate_and_fuse/wiring", ok, m3.loc(fn3),
            "disambiguates the second stream, then fuses, returns both maps"
            if ok else "disambiguate_and_fuse wiring changed")
@@ -488,6 +499,8 @@ def _check_disambiguate(ctx, model):
                and V[2][0][4][0] == "call"
                and V[2][0][4][1].endswith("UniqueNameGenerator")
                and V[2][0][4][2] and V[2][0][4][2][0] in union)
+        if not okv:
+            okv = _fresh_by_retry_loop(fn, V, K, union)
         ctx.ob("P/disambiguate/fresh-names", okv, loc,
                "fresh name = generator(clash), generator seeded with the union "
                "of both identifier sets" if okv else
@@ -510,6 +523,58 @@ def _check_disambiguate(ctx, model):
     ctx.ob("P/disambiguate/paths", judged >= 1, loc,
            f"{judged} renaming path(s) analysed" if judged else
            "no path of disambiguate_identifiers fills the substitution")
+
+
+def _fresh_by_retry_loop(fn, V, K, union):
+    """Freshness by construction instead of by the generator's seed:
+        name = gen(clash)
+        while name in used: name = gen(clash)
+    with `used` holding (at least) the union of both streams' identifiers and
+    growing by every name handed out.  A `while` without `break` is left only
+    when its test is false, so the name that goes on is not in `used`."""
+    if not (V[0] == "call" and V[1] == "var" and len(V[2]) == 1):
+        return False
+    loops = [w for w in ast.walk(fn) if isinstance(w, ast.While)
+             and isinstance(w.test, ast.Compare) and len(w.test.ops) == 1
+             and isinstance(w.test.ops[0], ast.In)
+             and isinstance(w.test.left, ast.Name)
+             and isinstance(w.test.comparators[0], ast.Name)
+             and not any(isinstance(b, ast.Break) for st in w.body
+                         for b in ast.walk(st))]
+    if len(loops) != 1:
+        return False
+    w = loops[0]
+    cand, used = w.test.left.id, w.test.comparators[0].id
+    # the candidate is what is wrapped into the replacement variable
+    wraps = any(isinstance(c, ast.Call) and isinstance(c.func, ast.Name)
+                and c.func.id == "var" and len(c.args) == 1
+                and isinstance(c.args[0], ast.Name) and c.args[0].id == cand
+                for c in ast.walk(fn))
+    # the loop body only draws a new candidate for the same clash
+    body_ok = all(isinstance(st, ast.Assign) and len(st.targets) == 1
+                  and isinstance(st.targets[0], ast.Name)
+                  and st.targets[0].id == cand and isinstance(st.value, ast.Call)
+                  for st in w.body)
+    # `used` starts as the union of both identifier sets and is only added to
+    inits = [st for st in ast.walk(fn) if isinstance(st, ast.Assign)
+             and len(st.targets) == 1 and isinstance(st.targets[0], ast.Name)
+             and st.targets[0].id == used]
+    grows = [c for c in ast.walk(fn) if isinstance(c, ast.Call)
+             and isinstance(c.func, ast.Attribute)
+             and isinstance(c.func.value, ast.Name) and c.func.value.id == used]
+    seeded = False
+    for ps in summarize(fn, plain=True, loop_mode="01"):
+        for _, pol, c in ps.conds:
+            if isinstance(c, tuple) and c[0] == "compare" and c[1] == ("In",) \
+                    and not pol:
+                u = c[3][0]
+                if u in union or contains(u, lambda t: t in union):
+                    seeded = True
+    return wraps and body_ok and len(inits) == 1 and seeded and all(
+        c.func.attr in ("add", "update") for c in grows) and any(
+        c.func.attr == "add" and len(c.args) == 1
+        and isinstance(c.args[0], ast.Name) and c.args[0].id == cand
+        for c in grows)
 
 
 def _check_used_identifiers(ctx, model):
